@@ -93,6 +93,13 @@ fn table() -> Vec<Prop> {
         assumptions: &["differential between LanguageIdentifier and Locale entry points; the reference model only selects the well-formed locale strings for clause 2"],
     },
     Prop {
+        id: "C14",
+        run: props::c14::run,
+        replay: props::c14::replay,
+        rule: props::c14::RULE,
+        assumptions: &["the direction model (harness/src/likely.rs, Layout) is read at run time from the layout.json files", "'a script that CLDR lists' = a script occurring in a locale name of the layout data", "two builds of the same harness source: likelysubtags on (main) and off (VERIF_BIN_NOLIKELY)"],
+    },
+    Prop {
         id: "C15",
         run: props::c15::run,
         replay: props::c15::replay,
@@ -135,6 +142,13 @@ fn extra_props(v: &mut Vec<Prop>) {
         rule: props::c08::RULE,
         assumptions: &["minimize(maximize(x)) == minimize(x) and 'twice equals once' are evaluated on the results of the query (DESIGN.md 5.4)", "the reference 'remove likely subtags' is built from the JSON; triples that touch a case where C06 allows two answers are compared by the algebraic clauses only"],
     });
+    v.push(Prop {
+        id: "C18",
+        run: props::c18::run,
+        replay: props::c18::replay,
+        rule: props::c18::RULE,
+        assumptions: &["the expected tables are re-derived at run time from likelySubtags.json and the layout.json files (harness/src/likely.rs)", "the compiled tables are read through the cfg(unic_locale_verif) re-export hook", "a value region ZZ is dropped, as the table generator documents (none occurs in the bundled data)"],
+    });
 }
 #[cfg(not(feature = "likely"))]
 fn extra_props(_v: &mut Vec<Prop>) {}
@@ -166,6 +180,9 @@ fn main() {
             _ => 2,
         };
         std::process::exit(code);
+    }
+    if submode && id == "C14" && args[2] == "--config-child" {
+        std::process::exit(props::c14::child_mode(&cfg));
     }
     let Some(p) = table().into_iter().find(|p| p.id == id) else {
         eprintln!("unknown property {id}");
